@@ -62,11 +62,14 @@ class Timer:
 
 
 class Objective:
-    def __init__(self, r):
+    """Stub objective: never / sometimes / always reports an improvement."""
+
+    def __init__(self, r, p=None):
         self.r = r
+        self.p = r.choice([0.0, 0.0, 0.4, 0.4, 1.0]) if p is None else p
 
     def has_improved(self, chromosome):
-        return self.r.random() < 0.4
+        return self.r.random() < self.p
 
     def has_changed(self, chromosome):
         from pynguin.testcase.localsearchobjective import LocalSearchImprovement
@@ -74,7 +77,7 @@ class Objective:
         return self.r.choice(list(LocalSearchImprovement))
 
 
-OPS = [("mutate", 34), ("crossover", 18), ("local_search", 8), ("delete", 6), ("insert", 6), ("change", 12),
+OPS = [("mutate", 34), ("crossover", 18), ("local_search", 16), ("delete", 6), ("insert", 6), ("change", 12),
        ("chop", 3), ("ruv", 3), ("clone", 3), ("append", 3), ("exec_result", 4), ("remove_fwd", 5),
        ("crossover_boundary", 12), ("clone_append", 5)]
 
@@ -100,7 +103,15 @@ def configure(r, maxlen):
     ls = config.configuration.local_search
     ls.local_search_probability = 1.0
     ls.local_search_llm = False
-    ls.ls_max_different_type_mutations = 3
+    ls.local_search_same_datatype = r.random() < 0.8
+    ls.local_search_different_datatype = r.random() < 0.8
+    ls.local_search_primitives = True
+    ls.local_search_collections = r.random() < 0.8
+    ls.local_search_complex_objects = r.random() < 0.8
+    # the remaining mass goes to "replace by a random generator accessible", which inserts receiver/argument statements
+    ls.ls_different_type_primitive_probability = r.choice([0.3, 0.1, 0.0])
+    ls.ls_different_type_collection_probability = r.choice([0.3, 0.1, 0.0])
+    ls.ls_max_different_type_mutations = r.choice([3, 6])
     ls.ls_random_parametrized_statement_call_count = 4
     ls.ls_dict_max_insertions = 3
 
@@ -123,7 +134,7 @@ def run_history(cluster, module, alias, hist_seed, n_steps, maxlen, stats):
     gen = tcf.RandomLengthTestCaseFactory(factory, cluster)
     pop = [TestCaseChromosome(gen.get_test_case(), factory) for _ in range(4)]
     fails = []
-    n_ins, n_x, n_al = len(rec.inserts), len(rec.xover), len(rec.alias)
+    n_ins, n_x, n_al, n_ls = len(rec.inserts), len(rec.xover), len(rec.alias), len(rec.ls)
 
     last = {}
 
@@ -137,7 +148,15 @@ def run_history(cluster, module, alias, hist_seed, n_steps, maxlen, stats):
             last[k] = fp
             for sig, msg in L.oracle_wf(c.test_case, alias, module, execute=True):
                 fails.append((f"wf:{sig}", f"after {what} (step {step}, chromosome {k}): {msg}\n{c.test_case.to_module().code}", step))
-        nonlocal n_ins, n_x, n_al
+        nonlocal n_ins, n_x, n_al, n_ls
+        for l_ in rec.ls[n_ls:]:
+            stats[f"ls:{l_['kind']}:{'found' if l_['found'] else 'rejected'}"] = stats.get(
+                f"ls:{l_['kind']}:{'found' if l_['found'] else 'rejected'}", 0) + 1
+            if not l_["found"] and l_["before"] != l_["after"]:
+                fails.append((f"ls:rollback:{l_['kind']}", f"local search ({l_['kind']}) found no improvement but left the test "
+                              f"case changed: {len(l_['before']['stmts'])} -> {len(l_['after']['stmts'])} statements, bound "
+                              f"{[x['bound'] for x in l_['before']['stmts']]} -> {[x['bound'] for x in l_['after']['stmts']]}", step))
+        n_ls = len(rec.ls)
         for al in rec.alias[n_al:]:
             fails.append((f"alias:{al['op']}", f"{al['op']} on one test case changed another live test case "
                           f"(registry {al['before']['reg']!r} -> {al['after']['reg']!r}, "
@@ -244,7 +263,7 @@ def work(task):
         mod_seed, hists, scratch, sample_seed, cap = task
         rec = recorder()
         rec.steps.clear(), rec.xover.clear(), rec.inserts.clear(), rec.unsupported.clear()
-        rec.alias.clear(), rec.alias_ok.clear(), rec._live.clear()
+        rec.alias.clear(), rec.alias_ok.clear(), rec._live.clear(), rec.ls.clear()
         rec.origin = "factory"
         name = f"c15sut_{mod_seed}"
         src = L.gen_module_source(random.Random(mod_seed))
@@ -268,6 +287,7 @@ def work(task):
         return {"steps": [L.c_case(s) for s in steps], "xover": [L.c_xcase(x) for x in xo],
                 "inserts": [L.c_icase(i) for i in rec.inserts[:cap]], "failures": failures, "stats": stats,
                 "alias": [L.c_acase(a) for a in (rec.alias + rec.alias_ok)[:cap // 4]],
+                "ls": [L.c_lcase(a) for a in rec.ls[:cap // 2]],
                 "unsupported": list(rec.unsupported), "n_steps_total": len(rec.steps)}
     except Exception as e:  # noqa: BLE001
         return {"crash": f"{type(e).__name__}: {e}", "trace": traceback.format_exc()[-3000:]}
@@ -430,7 +450,7 @@ def run(ctx: vlib.Ctx):
     with mp.get_context("fork").Pool(min(16, len(tasks))) as pool:
         results = pool.map(work, tasks, chunksize=1)
     ctx.log("histories done")
-    steps, xover, inserts, stats, alias = [], [], [], {}, []
+    steps, xover, inserts, stats, alias, lscases = [], [], [], {}, [], []
     n_fail = 0
     total_calls = 0
     for t, res in zip(tasks, results):
@@ -441,6 +461,7 @@ def run(ctx: vlib.Ctx):
         xover += res["xover"]
         inserts += res["inserts"]
         alias += res["alias"]
+        lscases += res["ls"]
         total_calls += res["n_steps_total"]
         for k, v in res["stats"].items():
             if isinstance(v, int):
@@ -482,6 +503,7 @@ def run(ctx: vlib.Ctx):
     b3 = ctx.run_cases("C15_xover", IMPORTS, "C15.xcase", "C15.check_crossover", xover, shard=200)
     b4 = ctx.run_cases("C15_insert", IMPORTS, "C15.icase", "C15.check_insert", inserts, shard=5000)
     b5 = ctx.run_cases("C15_alias", IMPORTS, "C15.acase", "C15.check_alias", alias, shard=big)
+    b6 = ctx.run_cases("C15_ls", IMPORTS, "C15.lcase", "C15.check_ls", lscases, shard=big)
     b1 = b2 = None
     if b_f is not None and b_d is not None:
         b1 = [len(steps) + i for i in b_d]
@@ -498,6 +520,7 @@ def run(ctx: vlib.Ctx):
         ("C15-factory-preconditions", b2, steps, "a call issued by the factory code on a well-formed test case violates the precondition under which WF preservation is proved"),
         ("C15-crossover-model", b3, xover, "the crossover model no longer reproduces splice_test_case_chromosomes"),
         ("C15-insertion-loop-model", b4, inserts, "the insertion-loop model (undo of overshooting insertions) no longer reproduces _mutation_insert"),
+        ("C15-local-search-rollback", b6, lscases, "a local search that found no improvement did not restore the test case exactly (or an accepted result is not well-formed)"),
         ("C15-value-semantics", b5, alias, "a call on one test case changed another live test case (the model treats test cases as values: clone is independent)"),
     ):
         if bad is None:
